@@ -589,6 +589,13 @@ class Blockwise(ArrayExpr):
         if any(idx is None for idx in index):
             return None
 
+        # A concatenating blockwise hands its function whole runs of blocks
+        # whose advertised sizes need not be real (the per-chunk partials of
+        # x[dask_int_index] are data-dependent), so its inputs cannot be
+        # sliced by output position.
+        if getattr(self, "concatenate", None):
+            return None
+
         # Pad index to full output length
         full_index = index + (slice(None),) * (len(out_ind) - len(index))
 
